@@ -59,7 +59,7 @@ func tolerances(c Case) tol {
 	if c.Strict {
 		return tol{}
 	}
-	return tol{prePadding: isOpen(fPrePadding), inlineSpace: isOpen(fInlineNewline)}
+	return tol{prePadding: isOpen(fPrePadding), inlineSpace: isOpen(fInlineNewline), codeNL: isOpen(fCodeNL), trimNBSP: isOpen(fTrimNBSP)}
 }
 
 // ---- rendering with vuego (the subject) ----------------------------------------------------
@@ -208,15 +208,17 @@ var templateNames = []string{
 var replacement = map[string]string{
 	"autolink":   `<a data-ov="autolink" :href="href">{{ label }}</a>`,
 	"blockquote": `<blockquote data-ov="blockquote" v-html="content"></blockquote>`,
-	"code_block": "<pre data-ov=\"code_block\" v-if=\"language\"><code :class=\"'language-' + language\">{{ code }}</code></pre>\n<pre data-ov=\"code_block\" v-else><code>{{ code }}</code></pre>",
+	"code_block": "<pre data-ov=\"code_block\" v-if=\"language != ''\"><code :class=\"'language-' + language\">{{ code }}</code></pre>\n<pre data-ov=\"code_block\" v-else><code>{{ code }}</code></pre>",
 	"code_span":  `<code data-ov="code_span">{{ content }}</code>`,
 	"emphasis":   "<strong data-ov=\"emphasis\" v-if=\"level == 2\" v-html=\"content\"></strong>\n<em data-ov=\"emphasis\" v-else v-html=\"content\"></em>",
 	"hard_break": `<br data-ov="hard_break">`,
 	"heading": "<h1 data-ov=\"heading\" v-if=\"level == 1\" v-html=\"content\"></h1>\n<h2 data-ov=\"heading\" v-else-if=\"level == 2\" v-html=\"content\"></h2>\n" +
 		"<h3 data-ov=\"heading\" v-else-if=\"level == 3\" v-html=\"content\"></h3>\n<h4 data-ov=\"heading\" v-else-if=\"level == 4\" v-html=\"content\"></h4>\n" +
 		"<h5 data-ov=\"heading\" v-else-if=\"level == 5\" v-html=\"content\"></h5>\n<h6 data-ov=\"heading\" v-else v-html=\"content\"></h6>",
-	"image":         `<img data-ov="image" src="{{ src }}" :alt="alt" :title="title">`,
-	"link":          `<a data-ov="link" href="{{ href }}" :title="title" v-html="content"></a>`,
+	// (the user templates mirror the defaults: the empty string, not truthiness, decides - the
+	// word false is a legitimate title / description / info string)
+	"image":         "<img data-ov=\"image\" v-if=\"title != ''\" src=\"{{ src }}\" alt=\"{{ alt }}\" title=\"{{ title }}\">\n<img data-ov=\"image\" v-else src=\"{{ src }}\" alt=\"{{ alt }}\">",
+	"link":          "<a data-ov=\"link\" v-if=\"title != ''\" href=\"{{ href }}\" title=\"{{ title }}\" v-html=\"content\"></a>\n<a data-ov=\"link\" v-else href=\"{{ href }}\" v-html=\"content\"></a>",
 	"list":          "<ol data-ov=\"list\" v-if=\"ordered\" :start=\"start\" v-html=\"content\"></ol>\n<ul data-ov=\"list\" v-else v-html=\"content\"></ul>",
 	"list_item":     `<li data-ov="list_item" v-html="content"></li>`,
 	"paragraph":     `<p data-ov="paragraph" v-html="content"></p>`,
